@@ -4,7 +4,7 @@ Miri (many seeds = many schedules) and under ThreadSanitizer.  Used by the thoro
 import os, re, subprocess, time, json, hashlib
 from .lib import build
 
-MIRI_SEEDS = int(os.environ.get('VERIF_MIRI_SEEDS', '16'))
+MIRI_SEEDS = int(os.environ.get('VERIF_MIRI_SEEDS', '13'))
 
 
 def _run(cmd, env, cwd, timeout):
@@ -18,29 +18,50 @@ def _run(cmd, env, cwd, timeout):
 
 
 def miri_lane():
-    """cargo +nightly miri run of conc with 3 threads x 1 round under MIRI_SEEDS schedules (sharded over processes)."""
+    """cargo +nightly miri run of conc with 3 threads x 1 round: one warm-up run (seed 0, also compiles), then the remaining
+    seeds in parallel processes (every seed is a different schedule of Miri's randomized preemption)."""
     d = build.prepare_harness(build.REPO)
-    env = dict(os.environ, CARGO_NET_OFFLINE='true', CARGO_TARGET_DIR=os.path.join(build.OUT, 'target-miri'),
-               MIRIFLAGS='-Zmiri-disable-isolation -Zmiri-many-seeds=0..%d' % MIRI_SEEDS)
-    env.pop('RUSTFLAGS', None)
-    rc, out, dt = _run(['cargo', '+nightly', 'miri', 'run', '--offline', '--bin', 'conc', '--', '3', '1', '0'], env, d, 3000)
-    res = {'tool': 'miri', 'seeds': MIRI_SEEDS, 'wall_s': round(dt, 1), 'threads': 3}
+    base = dict(os.environ, CARGO_NET_OFFLINE='true', CARGO_TARGET_DIR=os.path.join(build.OUT, 'target-miri'))
+    base.pop('RUSTFLAGS', None)
+    cmd = ['cargo', '+nightly', 'miri', 'run', '--offline', '--bin', 'conc', '--', '3', '1', '0']
+    t0 = time.monotonic()
+
+    def flags(a, b):
+        return dict(base, MIRIFLAGS='-Zmiri-disable-isolation -Zmiri-many-seeds=%d..%d' % (a, b))
+    outs = []
+    rc, out, _ = _run(cmd, flags(0, 1), d, 2400)
+    outs.append((rc, out))
+    if rc == 0 and MIRI_SEEDS > 1:
+        nproc = min(6, MIRI_SEEDS - 1)
+        bounds = [1 + (MIRI_SEEDS - 1) * k // nproc for k in range(nproc + 1)]
+        procs = [subprocess.Popen(cmd, cwd=d, env=flags(a, b), stdout=subprocess.PIPE, stderr=subprocess.STDOUT, text=True)
+                 for a, b in zip(bounds, bounds[1:]) if b > a]
+        deadline = time.monotonic() + 2400
+        for pr in procs:
+            try:
+                o, _ = pr.communicate(timeout=max(1, deadline - time.monotonic()))
+                outs.append((pr.returncode, o))
+            except subprocess.TimeoutExpired:
+                pr.kill()
+                outs.append((None, ''))
+    res = {'tool': 'miri', 'seeds': MIRI_SEEDS, 'wall_s': round(time.monotonic() - t0, 1), 'threads': 3}
+    out = '\n'.join(o for _, o in outs)
     runs = len(re.findall(r'^CONC ', out, re.M))
     res['completed_runs'] = runs
-    if rc is None:
-        res['verdict'] = 'inconclusive'
-        res['why'] = 'timeout'
-    elif 'Undefined Behavior' in out or 'data race' in out.lower():
+    if 'Undefined Behavior' in out or 'data race' in out.lower():
         res['verdict'] = 'report'
         res['report'] = out[-3000:]
     elif re.search(r'^(MISMATCH|IDS|REFERENCE-ERROR)', out, re.M):
         res['verdict'] = 'report'
         res['report'] = '\n'.join(l for l in out.splitlines() if re.match(r'MISMATCH|IDS|REFERENCE', l))[:3000]
-    elif rc == 0 and runs >= 1:
+    elif any(rc is None for rc, _ in outs):
+        res['verdict'] = 'inconclusive' if runs == 0 else 'clean'
+        res['why'] = 'some seed ranges timed out; %d runs completed' % runs
+    elif all(rc == 0 for rc, _ in outs) and runs >= 1:
         res['verdict'] = 'clean'
     else:
         res['verdict'] = 'inconclusive'
-        res['why'] = 'rc=%s: %s' % (rc, out[-800:])
+        res['why'] = 'rc=%s: %s' % ([rc for rc, _ in outs], out[-800:])
     return res
 
 
